@@ -18,7 +18,8 @@ CONSTANTS N,               \* maximal length of s
           MaxTrail,        \* maximal length of trail
           RewritesInvalid, EmitCases
 
-Classes == {"a", "MB", "COMB", "BAD"}
+\* "E4" a four-byte character, "SP" a blank (the kept part is a prefix of s, blanks included)
+Classes == {"a", "MB", "COMB", "BAD", "E4", "SP"}
 \* trails: ASCII with a multi-byte character at every third place, and trails that are mostly
 \* multi-byte (their length in bytes is well above their length in characters)
 Trails  == { [i \in 1..n |-> IF i % 3 = 0 THEN "MB" ELSE "."] : n \in 0..MaxTrail }
